@@ -17,10 +17,13 @@ structure Val where
   g : Bytes
 deriving Repr, DecidableEq, Inhabited
 
-def idxK : Idx Val := ⟨str "k", fun v => if v.k.isEmpty then none else some v.k⟩
-def idxKG : Idx Val := ⟨str "kg", fun v => some (v.g ++ 95 :: v.k)⟩
+/-- the harness writes the byte 0xFF of a binary key as `~` (values stay valid UTF-8) -/
+def kb (k : Bytes) : Bytes := k.map (fun c => if c = 126 then 255 else c)
+
+def idxK : Idx Val := ⟨str "k", fun v => if v.k.isEmpty then none else some (kb v.k)⟩
+def idxKG : Idx Val := ⟨str "kg", fun v => some (kb (v.g ++ 95 :: v.k))⟩
 /-- always indexed under K — the empty, non-nil key when K is empty — except values of group "n" -/
-def idxE : Idx Val := ⟨str "e", fun v => if v.g = str "n" then none else some v.k⟩
+def idxE : Idx Val := ⟨str "e", fun v => if v.g = str "n" then none else some (kb v.k)⟩
 def idxs : List (Idx Val) := [idxK, idxKG, idxE]
 
 def idxOf (n : Bytes) : Idx Val := if n = str "kg" then idxKG else if n = str "e" then idxE else idxK
@@ -292,10 +295,11 @@ def run (st : St) (args : List Str) (impl : String) : St × String × String × 
       let (o, st', tag) := mutate st id (.update v true)
       (st', o, o, "update-" ++ (if tag = "ok" then (if idxs.any (fun ix => b.bind ix.key ≠ ix.key v) then "keychange" else "samekeys") else tag))
     else if c = str "watch" then
-      ({ st with watches := st.watches ++ [⟨id, k, g⟩] }, "ok", "-", "triv-watch")
+      ({ st with watches := st.watches ++ [⟨id, kb k, g⟩] }, "ok", "-", "triv-watch")
     else bad
   | [c, ixn, pre, filt, off, lim, rev] =>
     if c = str "query" then
+      let pre := kb pre
       let ix := idxOf ixn
       let allKeys := st.db.map (·.1)
       let m := fetch allKeys ix.name pre (filterFn filt) (int off) (int lim) (rev = str "T")
